@@ -235,6 +235,7 @@ type DagExec struct {
 	H        *hg.Hashgraph
 	Store    hg.Store
 	Inserted int
+	RawBlocks []*hg.Block
 }
 
 func (x *DagExec) close() {
@@ -279,6 +280,8 @@ func execDag(d *Dag, order []*DagEvent, o ExecOpts) *DagExec {
 	cb := func(b *hg.Block) error {
 		x.Blocks = append(x.Blocks, normBody(b.Body))
 		x.BlockRR = append(x.BlockRR, b.RoundReceived())
+		cp := *b
+		x.RawBlocks = append(x.RawBlocks, &cp)
 		return nil
 	}
 	h := hg.NewHashgraph(store, cb, quietLogger())
@@ -416,4 +419,8 @@ func compareExec(ref, v *DagExec, prefixOnly bool) string {
 		}
 	}
 	return ""
+}
+
+func execDagWithBlocks(d *Dag, order []*DagEvent) *DagExec {
+	return execDag(d, order, ExecOpts{Store: "inmem", Cache: len(order)*2 + 200, Batch: 1})
 }
